@@ -210,6 +210,20 @@ def main():
         else:
             want = {(r["file"], r["line"], r["kind"], r["before"]) for r in recs}
             ms = [m for m in ms if (m["file"], m["line"], m["kind"], m["before"]) in want]
+    if "--changed-since" in sys.argv:
+        # only mutants on lines that /repo added or changed since the given commit (the code the latest rounds of repairs wrote)
+        base = sys.argv[sys.argv.index("--changed-since") + 1]
+        changed = {}
+        cur = None
+        for line in sh("git -C %s diff -U0 %s HEAD -- pypika_tortoise" % (REPO, base)).stdout.splitlines():
+            if line.startswith("+++ b/"):
+                cur = line[6:]
+            m_ = re.match(r"@@ -\S+ \+(\d+)(?:,(\d+))? @@", line)
+            if m_ and cur:
+                a, k = int(m_.group(1)), int(m_.group(2) or 1)
+                changed.setdefault(cur, set()).update(range(a, a + k))
+        ms = [m for m in ms if m["line"] in changed.get(m["file"], ())]
+        print("mutants on changed lines: %d" % len(ms))
     rnd = random.Random(seed)
     rnd.shuffle(ms)
     skip = int(sys.argv[sys.argv.index("--skip") + 1]) if "--skip" in sys.argv else 0
